@@ -12,6 +12,7 @@ import Proofs.Lemmas.Ensemble
 import Proofs.Lemmas.EnsembleDistinct
 import Proofs.Lemmas.ComposeEnsemble
 import Proofs.Lemmas.EnsembleScale
+import Proofs.C02
 
 namespace C08
 open Pool Ensemble
@@ -675,33 +676,48 @@ theorem ensemble_noise_never_negligible (draw : ρ → Sig × ρ) (g : ρ) (std 
     · intro h
       exact hij (hinj (smul_injective _ hs (sub_left_cancel _ _ _ (hl' i) (hl' j) h)))
 
-/-- THE SCALE LAW OF THE RESULT: if the classic sift commutes with the factor `c` (C02: `S (c • y) = c • S y`
-    column by column) and `std` is homogeneous at `c`, then `ensemble_sift (c • x) = c • ensemble_sift x`, column
-    by column, exactly — both noise modes, every ensemble size, level, generator and pair of schedules.  (With the
-    same draws the members of `c • x` are `c` times the members of `x`; a noise amplitude that is not linear in
-    the amplitude of `x` breaks this whatever `S` is.) -/
-theorem ensemble_scale_law (σ σ' : Schedule) (p p' : Nat) (draw : ρ → Sig × ρ) (g : ρ) (S : Sig → List Sig)
+/-- THE SCALE LAW OF THE RESULT: if the classic sift commutes with the factor `c` (C02: `S' (c • y) = c • S y` column
+    by column; `S' = S` for a scale-free sift, `S'` = the sift with `sift_thresh` scaled by `|c|` in general — the one
+    absolute number in the classic sift) and `std` is homogeneous at `c`, then
+    `ensemble_sift (c • x) = c • ensemble_sift x`, column by column, exactly — both noise modes, every ensemble size,
+    level, generator and pair of schedules.  (With the same draws the members of `c • x` are `c` times the members of
+    `x`; a noise amplitude that is not linear in the amplitude of `x` breaks this whatever `S` is.) -/
+theorem ensemble_scale_law (σ σ' : Schedule) (p p' : Nat) (draw : ρ → Sig × ρ) (g : ρ) (S S' : Sig → List Sig)
     (mode : Mode) (N : Nat) (std : Sig → Rat) (level c : Rat) (x : Sig) (hσ : σ.Valid N p) (hσ' : σ'.Valid N p')
-    (hstd : std (Sig.smul c x) = c * std x) (hS : ∀ y, S (Sig.smul c y) = (S y).map (Sig.smul c)) :
-    ensembleSiftLevel σ draw g S mode N std level (Sig.smul c x)
+    (hstd : std (Sig.smul c x) = c * std x) (hS : ∀ y, S' (Sig.smul c y) = (S y).map (Sig.smul c)) :
+    ensembleSiftLevel σ draw g S' mode N std level (Sig.smul c x)
       = (ensembleSiftLevel σ' draw g S mode N std level x).map (Sig.smul c) := by
   unfold ensembleSiftLevel
-  rw [noise_scale_linear std level c x hstd, ensembleSift_scale σ p draw g S c hS mode N _ x hσ,
+  rw [noise_scale_linear std level c x hstd, ensembleSift_scale σ p draw g S S' c hS mode N _ x hσ,
     (ensemble_schedule_indep σ σ' p p' draw g S mode N _ x hσ hσ').2]
   rfl
 
 /-- … and member by member: the decomposition of member `i` of `c • x` is `c` times that of member `i` of `x`. -/
-theorem ensemble_members_scale (σ σ' : Schedule) (p p' : Nat) (draw : ρ → Sig × ρ) (g : ρ) (S : Sig → List Sig)
+theorem ensemble_members_scale (σ σ' : Schedule) (p p' : Nat) (draw : ρ → Sig × ρ) (g : ρ) (S S' : Sig → List Sig)
     (mode : Mode) (N : Nat) (std : Sig → Rat) (level c : Rat) (x : Sig) (hσ : σ.Valid N p) (hσ' : σ'.Valid N p')
-    (hstd : std (Sig.smul c x) = c * std x) (hS : ∀ y, S (Sig.smul c y) = (S y).map (Sig.smul c))
+    (hstd : std (Sig.smul c x) = c * std x) (hS : ∀ y, S' (Sig.smul c y) = (S y).map (Sig.smul c))
     (i : Nat) (hi : i < N) :
-    ((ensembleTraceLevel σ draw g S mode N std level (Sig.smul c x))[i]?).map (·.2)
+    ((ensembleTraceLevel σ draw g S' mode N std level (Sig.smul c x))[i]?).map (·.2)
       = ((ensembleTraceLevel σ' draw g S mode N std level x)[i]?).map (fun m => m.2.map (Sig.smul c)) := by
   unfold ensembleTraceLevel
-  rw [ensemble_member_noise σ p draw g S mode N _ _ hσ i hi, ensemble_member_noise σ' p' draw g S mode N _ x hσ' i hi,
+  rw [ensemble_member_noise σ p draw g S' mode N _ _ hσ i hi, ensemble_member_noise σ' p' draw g S mode N _ x hσ' i hi,
     noise_scale_linear std level c x hstd]
   simp only [Option.map_some, Option.some.injEq]
-  exact siftWithNoise_scale S c hS mode _ x _
+  exact siftWithNoise_scale S S' c hS mode _ x _
+
+/-- The scale law over the classic sift of the Sift model (C02.sift_smul): for a single-IMF extraction that commutes
+    with the factor `c ≠ 0` (`hX`; C02.getNextImf_smul derives it from homogeneous envelopes and scale-free stop rules),
+    the ensemble sift of `c • x` run with `sift_thresh = |c|·thr` is `c` times the ensemble sift of `x` run with `thr`
+    — every cap, fuel, noise mode, ensemble size, level, generator and schedules. -/
+theorem ensemble_scale_law_classic_sift (σ σ' : Schedule) (p p' : Nat) (draw : ρ → Sig × ρ) (g : ρ)
+    (X X' : Sig → Option (Sig × Bool)) (c : Rat) (hc : c ≠ 0)
+    (hX : ∀ y, X' (Sig.smul c y) = (X y).map fun r => (Sig.smul c r.1, r.2))
+    (thr : Rat) (cap : Option Nat) (fuel : Nat) (mode : Mode) (N : Nat) (std : Sig → Rat) (level : Rat) (x : Sig)
+    (hσ : σ.Valid N p) (hσ' : σ'.Valid N p') (hstd : std (Sig.smul c x) = c * std x) :
+    ensembleSiftLevel σ draw g (fun y => (Sift.sift X' (Rat.abs' c * thr) cap y fuel).1) mode N std level (Sig.smul c x)
+      = (ensembleSiftLevel σ' draw g (fun y => (Sift.sift X thr cap y fuel).1) mode N std level x).map (Sig.smul c) :=
+  ensemble_scale_law σ σ' p p' draw g _ _ mode N std level c x hσ hσ' hstd
+    (fun y => by simp only [C02.sift_smul c hc X X' hX thr cap y fuel])
 
 /-- Complete ensemble: the parent's noise matrix at EVERY stage is linear in the amplitude of the signal —
     stage `k` of `c • x` holds `c` times the columns of stage `k` of `x` (noise-only first IMF `Fn` commuting with
@@ -763,6 +779,9 @@ example : noiseScale Sig.absSum (1/2) [3, -1] = 2 ∧ noiseScale Sig.absSum (1/2
   decide +kernel
 example : Sig.absSum (Sig.smul (1/1000) [3, -1]) = (1/1000) * Sig.absSum [3, -1] := by decide +kernel
 example : ∀ y, (fun y : Sig => [y]) (Sig.smul (1/1000) y) = ((fun y : Sig => [y]) y).map (Sig.smul (1/1000)) := fun _ => rfl
+-- an extraction that commutes with every factor (hypothesis `hX` of `ensemble_scale_law_classic_sift`): return the input, flag cleared
+example : ∀ (c : Rat) (y : Sig), (fun y : Sig => some (y, false)) (Sig.smul c y)
+    = ((fun y : Sig => some (y, false)) y).map fun r => (Sig.smul c r.1, r.2) := fun _ _ => rfl
 example : ensembleSiftLevel σex counterDraw 0 (fun y => [y]) .single 4 Sig.absSum (1/2) [3]
     = [[3 + (3 * (1/2)) * ((0 + 1 + 2 + 3) / 4)]] := by decide +kernel
 
